@@ -19,7 +19,7 @@ add("C03","exploration","runtime monitor: issuance-count oracle per quote over s
     "Real mint; per quote #successful issuances <= #payments at every point, never before payment, sum <= amount, NUT-20 signature recomputed by the harness; the DB/LN-call interleavings of two mint requests with different outputs, of a mint request with the late watcher notification and with a state poll are enumerated by the scheduler (quick: <= 2 preemptions; thorough: <= 5 preemptions, at most 10000 per scenario, plus internal settlement); thorough adds sampled three-way schedules, porcupine stress and -race.",
     T+" Complete for the enumerated pairs only.", "3/C03")
 add("C04","exploration","runtime monitor: accept/reject oracle over generated single-field mutants of really minted proofs (refcrypto decides genuineness)",
-    "Real mint (LoadMint + SQLite) with three keysets; valid proofs on every keyset and denomination class are minted, every value mutation of amount/id/C/secret is presented alone, after and before a valid proof through Swap and MeltTokens; mutants must be refused, originals still accepted afterwards. Held on the cases listed in the evidence, not for all inputs.",
+    "Real mint (LoadMint + SQLite) with three keysets; valid proofs on every keyset and denomination class are minted, every value mutation of amount/id/C/secret is presented alone, after and before a valid proof through Swap and MeltTokens; mutants must be refused, originals still accepted afterwards; honestly signed secrets over 512 bytes in several encodings must be refused, 512-byte ones accepted. Held on the cases listed in the evidence, not for all inputs.",
     T+" Re-encodings of the same point are not generated.", "3/C04")
 add("C05","fault_enumeration","runtime monitor: decision-table oracle over exhaustively enumerated scripts of Lightning answers (pay x status lookups, length <= 4) and poll channels",
     "Real MeltTokens/GetMeltQuoteState/ProofsStateCheck under a fully scripted backend: every pay answer x every status-lookup sequence up to length 3 x poll channel assignment; observed quote state, proof state, in-flight observation inside the pay call and a follow-up swap are compared with the reference table (locked / spent / released).",
@@ -52,16 +52,16 @@ add("C14","exploration","runtime monitor: round-trip equality and totality (no p
     "NewTokenV3/V4 -> Serialize -> DecodeToken on generated proof lists; DecodeToken/DecodeTokenV3/V4 and all accessors on prefixes, short strings, mutations, base64 of generated JSON/CBOR.",
     "Trusted: encoding/json, fxamacker/cbor.", "3/C14")
 add("C15","exploration","runtime monitor: reference-model comparison of ProofsStateCheck and RestoreSignatures answers after every operation of generated histories",
-    "Real mint histories with swaps, mints, failed/pending/resolved melts, internal settlement, P2PK spends, rotations, restarts; after every operation a mixed query (known/unknown/repeated/malformed, PRNG order) is compared entry by entry with the model (state, order, echo, witness; restored amount/id/C_/e/s).",
+    "Real mint histories with swaps, mints, failed/pending/resolved melts, internal settlement, P2PK spends, rotations, restarts; after every operation a mixed query (known/unknown/repeated/malformed, PRNG order) is compared entry by entry with the model (state, order, echo, witness; restored amount/id/C_/e/s); byte-identical /v1/restore and /v1/checkstate requests through the HTTP router before and after a state change must differ accordingly.",
     T, "3/C15")
 add("C16","exploration","runtime monitor: big-integer reference balances and limit decisions vs. IssuedEcash/RedeemedEcash/TotalBalance/RetrieveMintInfo and quote accept/reject",
-    "Real mint under limit configurations at the boundaries; histories move the balance across the limit in both directions; refusal is demanded above the limits in unbounded arithmetic, nuts.4.disabled must equal (balance >= max).",
+    "Real mint under limit configurations at the boundaries; histories move the balance across the limit in both directions; refusal is demanded above the limits in unbounded arithmetic (also for the mint's own invoices), nuts.4.disabled must equal (balance >= max). Beyond the stated quantifier the scheduler enumerates the preemption-bounded interleavings of a mint request and a swap request carrying one B_, judged by issued total = signatures handed out and by restore.",
     T, "3/C16")
 add("C17","exploration","runtime monitor: wallet-world conservation and balance oracle from the transport record and mint-side proof states after every wallet operation",
-    "2-3 real wallets and 1-2 real mints; after every operation reported/pending balances, duplicate secrets, no-loss and conservation equations are evaluated from the byte-level transport record and mint-side states.",
+    "2-3 real wallets and 1-2 real mints; after every operation reported/pending balances, duplicate secrets, no-loss and conservation equations are evaluated from the byte-level transport record and mint-side states; a swap that leaves more at the mint than the fee the mint charges for its inputs is a loss. A directed sequence per history makes every kind of operation once; the listed finding is reproduced at every seed.",
     T, "3/C17")
 add("C18","exploration","runtime monitor: exact-amount and fee oracle on Wallet.Send over generated wallet contents, amounts, fee modes and fee rates",
-    "Harness-minted proofs of arbitrary denominations are placed in a real wallet store; every amount is sent in both fee modes; sum, fee for exactly those proofs, distinctness, mint-side state and the success premise are checked.",
+    "Harness-minted proofs of arbitrary denominations are placed in a real wallet store; every amount is sent in both fee modes; sum, fee for exactly those proofs, distinctness, mint-side state and the success premise are checked; one fixed store reproduces the listed finding at every seed.",
     T, "3/C18")
 add("C19","exploration","runtime monitor: counter-reuse detection on every submitted B_ (independent NUT-13 mapping) and restore completeness vs. mint-side state, incl. wallet crash injection",
     "Wallet histories, restore->continue->restore chains, and a crash at every store/HTTP boundary of mint/send/receive/melt followed by restore from the mnemonic.",
